@@ -15,6 +15,17 @@ def is_meta(c):
     return z3.Or(*[c == m for m in META])
 
 
+def perl_class(e, k, c):
+    from .models_str import is_ws
+    if k == 's': return is_ws(e, c)
+    if not isinstance(c, int):
+        if e.check(c >= 0x80): raise Unsupported('\\%s on a symbolic non-ASCII character' % k)
+        dig = z3.And(c >= 48, c <= 57)
+        return dig if k == 'd' else z3.Or(dig, z3.And(c >= 65, c <= 90), z3.And(c >= 97, c <= 122), c == 95)
+    ch = chr(c)
+    return ch.isdigit() if k == 'd' else (ch.isalnum() or ch == '_')
+
+
 class RegexV:
     def __init__(s, ast, src): s.ast = ast; s.src = src
     def clone_value(s, e): return s
@@ -64,6 +75,7 @@ def parse_regex(e, chars):
             d = peek()
             if d is None: raise Panic('regex parse error: trailing backslash')
             pos[0] += 1
+            if isinstance(d, int) and chr(d) in 'sSdDwW': return ('class', chr(d).isupper(), [('perl', chr(d).lower())])
             if isinstance(d, int) and chr(d).isalnum(): raise Unsupported('regex escape \\%s' % chr(d))
             if not isinstance(d, int):
                 if e.branch(z3.Or(z3.And(d >= 48, d <= 57), z3.And(d >= 65, d <= 90), z3.And(d >= 97, d <= 122))): raise Unsupported('regex class escape')
@@ -89,6 +101,8 @@ def parse_regex(e, chars):
             if is_c(c, '\\'):
                 c = peek(); pos[0] += 1
                 if c is None: raise Panic('regex parse error')
+                if isinstance(c, int) and chr(c) in 'sdw': items.append(('perl', chr(c))); continue
+                if isinstance(c, int) and chr(c).isalnum(): raise Unsupported('regex class escape in bracket')
             elif is_c(c, '['): raise Unsupported('nested character class')
             if peek() is not None and is_c(peek(), '-') and pos[0] + 1 < n and not is_c(chars[pos[0] + 1], ']'):
                 pos[0] += 1; hi = peek(); pos[0] += 1
@@ -129,6 +143,7 @@ def match_node(e, node, chars, i, k):
         c = chars[i]; hit = False
         for it in node[2]:
             if it[0] == 'ch': cond = s_eq(c, it[1])
+            elif it[0] == 'perl': cond = perl_class(e, it[1], c)
             else: cond = b_and(c >= it[1], c <= it[2])
             if e.branch(cond): hit = True; break
         if hit != node[1]: return k(i + 1)
